@@ -19,7 +19,7 @@ package merkletrie
 // Streams: (1) EXHAUSTIVE op sequences up to a length bound over a small universe of 3-byte
 // keys with shared prefixes, once per page configuration class; (2) random long sequences over
 // random 32-byte keys (a few of them forced to share long prefixes) with random page
-// configurations; (2b) commit/evict/reload cycles with branch-local changes; (3) a malformed stream (wrong element lengths, empty keys).
+// configurations; (1b) fixed regression histories; (2b) commit/evict/reload cycles with branch-local changes; (3) a malformed stream (wrong element lengths, empty keys).
 
 import (
 	"errors"
@@ -356,6 +356,26 @@ func TestVerifC17(t *testing.T) {
 		}
 	}
 	rec()
+
+	// ---- (1b) regression: the minimal histories that exposed "evict_drops_partial_last_page"
+	// (Evict released the committed, partially filled tail page; the next commit lost its nodes), each
+	// followed by operations that walk into the affected branch, under every configuration
+	k := func(a, b, c byte) []byte { return []byte{a, b, c} }
+	A := func(x []byte) vC17Op { return vC17Op{kind: 'a', key: x} }
+	D := func(x []byte) vC17Op { return vC17Op{kind: 'd', key: x} }
+	E := func(f bool) vC17Op { return vC17Op{kind: 'e', flag: f} }
+	C, R, Hh := vC17Op{kind: 'c'}, vC17Op{kind: 'r'}, vC17Op{kind: 'h'}
+	regress := [][]vC17Op{
+		{A(k(0, 0, 1)), A(k(0, 0, 0)), E(true), A(k(1, 0, 0)), Hh, A(k(0, 0, 2)), D(k(0, 0, 0))},
+		{A(k(1, 0, 0)), A(k(0, 0, 1)), A(k(0, 1, 0)), E(true), D(k(1, 0, 0)), Hh, A(k(0, 1, 1)), D(k(0, 0, 1))},
+		{A(k(0, 0, 1)), A(k(0, 0, 0)), C, E(false), A(k(1, 0, 0)), C, E(false), A(k(0, 0, 2)), C, R, D(k(0, 0, 0))},
+		{A(k(0, 0, 1)), A(k(0, 0, 0)), C, R, A(k(1, 0, 0)), C, R, A(k(0, 0, 2)), D(k(0, 0, 1)), E(true), R, A(k(0, 0, 1))},
+	}
+	for i, seq := range regress {
+		for _, cfg := range vC17Cfgs {
+			vC17Run(out, st, cfg, seq, i == 0)
+		}
+	}
 
 	// ---- (2) random long sequences over 32-byte keys
 	nRand := vEnvInt("VERIF_C17_RANDOM", 150)
